@@ -346,6 +346,10 @@ VALUE_PATH_OPS = {
 }
 
 
+NUMERIC_ADJUST = ("try_from", "try_into", "unwrap_or_default", "unwrap_or", "unwrap_or_else", "clamp", "max", "min", "abs", "unsigned_abs", "saturating_sub", "saturating_add",
+                  "wrapping_sub", "wrapping_add", "rem_euclid", "checked_sub", "checked_add", "round", "floor", "ceil", "trunc", "to_int_unchecked")
+
+
 def value_paths(ctx, cr):
     """the computed value reaches the result through the documented primitive only: on the backward slice of the value no other
     operation occurs (parse_epoch: RFC 3339 parse -> the same instant in UTC -> its timestamp; dropping the offset with
@@ -378,18 +382,24 @@ def value_paths(ctx, cr):
         return
     names = {n: l for n, l in f["names"] if isinstance(l, int)}
     bad = []
+    benign = ("<std::rc::Rc<T, A> as std::ops::Deref>::deref", "<std::vec::Vec<T, A> as std::ops::Deref>::deref", "core::slice::<impl [T]>::first",
+              "std::convert::num::<impl std::convert::From<u16> for usize>::from", "<std::result::Result<T, E> as std::ops::Try>::branch",
+              "<std::result::Result<T, F> as std::ops::FromResidual<std::result::Result<std::convert::Infallible, E>>>::from_residual",
+              "<std::string::String as std::convert::From<&str>>::from", "<T as std::string::ToString>::to_string", "std::fmt::format", "std::hint::must_use",
+              "core::fmt::rt::Argument::new_display", "std::fmt::Arguments::new", "std::fmt::Arguments::from_str")
     for nm in ("from", "to"):
         if nm not in names:
             bad.append("local %s missing" % nm)
             continue
-        calls, consts, locs = flow.backward_slice(f, names[nm])
-        allowed = ("<std::rc::Rc<T, A> as std::ops::Deref>::deref", "<std::vec::Vec<T, A> as std::ops::Deref>::deref", "core::slice::<impl [T]>::first",
-                   "std::convert::num::<impl std::convert::From<u16> for usize>::from")
-        for c in calls:
+        # interprocedural: the decoding may live in a private helper
+        calls, casts = flow.backward_slice_ip(cr, f, names[nm])
+        for body_key, c, descended in calls:
             p = M.norm_path(c["fn"].get("path", ""))
-            if p not in allowed:
+            meth = p.split("::")[-1]
+            # what may not happen to the number: any other conversion or arithmetic adjustment (error plumbing such as ok_or_else / ? /
+            # map_err around it is irrelevant to the value)
+            if meth in NUMERIC_ADJUST or (meth in ("from", "into") and "From<u16> for usize" not in p and "String" not in p):
                 bad.append("%s: %s (l.%s)" % (nm, p, c.get("ln")))
-        casts = [(st["rv"]["ck"], cr.ty_str(st["rv"]["ty"])) for bi, si, st in M.iter_stmts(f) if st.get("rv", {}).get("r") == "cast" and isinstance(st["p"], int) and st["p"] in locs]
         num = [c for c in casts if c[0] in ("IntToInt", "FloatToInt")]
         if not num or any(c[1] != "u16" for c in num):
             bad.append("%s: numeric conversion %s instead of truncation to u16" % (nm, num))
